@@ -33,6 +33,9 @@ type CallSpec struct {
 	Name   string `json:"name"`   // identifier at the call site
 	Type   int    `json:"type"`   // index into Case.Types
 	Arity  int    `json:"arity"`  // number of arguments (all of type Type): 1 = curried form of equal/compare, tuple of one
+	// Inner: name of a deriveKeys-style call wrapped around the argument (NAME(INNER(m), …)): the argument
+	// type of NAME is unknown until INNER has been generated, so the call needs a second generation pass.
+	Inner string `json:"inner,omitempty"`
 }
 
 // Call builds a call with the usual arity of the plugin.
@@ -89,6 +92,8 @@ type Case struct {
 	OtherFile    string       `json:"other_file"`
 	Variants     []Variant    `json:"variants"`
 	KeepDerived  bool         `json:"keep_derived,omitempty"`
+	Pkg2         []FileSpec        `json:"pkg2,omitempty"` // files of a second package q processed by the same invocation (goderive ./p ./q)
+	NoModel      bool              `json:"no_model,omitempty"` // multi-pass / multi-package cases: no regall line of the Lean model
 	Extra        map[string]string `json:"extra,omitempty"` // further files of the module (path relative to the module root): imported packages
 	Group        string       `json:"group,omitempty"` // C12: cases of one group are renamings of each other
 	Rename       string       `json:"rename,omitempty"`
@@ -162,7 +167,25 @@ func PrefixArgs(p string, overrides map[string]string) []string {
 // wrapper: the user function holding one derive call.
 func wrapper(i int, c CallSpec, t TypeSpec) string {
 	f := fmt.Sprintf("Wrap%d", i)
+	if c.Inner != "" {
+		// t is map[string]int; INNER(a) is []string
+		arg := c.Inner + "(a)"
+		switch c.Plugin {
+		case "min", "max":
+			return fmt.Sprintf("func %s(a %s) string { return %s(%s, \"\") }\n", f, t.Go, c.Name, arg)
+		case "sort", "unique":
+			return fmt.Sprintf("func %s(a %s) []string { return %s(%s) }\n", f, t.Go, c.Name, arg)
+		case "set":
+			return fmt.Sprintf("func %s(a %s) map[string]struct{} { return %s(%s) }\n", f, t.Go, c.Name, arg)
+		case "hash":
+			return fmt.Sprintf("func %s(a %s) uint64 { return %s(%s) }\n", f, t.Go, c.Name, arg)
+		}
+		panic("wrapper: no nested form for plugin " + c.Plugin)
+	}
 	switch c.Plugin {
+	case "min", "max":
+		// t is []int
+		return fmt.Sprintf("func %s(a %s) int { return %s(a, 0) }\n", f, t.Go, c.Name)
 	case "equal":
 		if c.Arity == 1 {
 			return fmt.Sprintf("func %s(a %s) func(%s) bool { return %s(a) }\n", f, t.Go, t.Go, c.Name)
@@ -207,11 +230,20 @@ func gofmt(src string) string {
 
 // Sources returns file name -> contents of the user package (package name p).
 func (c *Case) Sources() map[string]string {
+	out := c.render("p", c.Files)
+	c.reservedFile(out)
+	return out
+}
+
+// Sources2 returns the files of the second package q (empty when the case has one package).
+func (c *Case) Sources2() map[string]string { return c.render("q", c.Pkg2) }
+
+func (c *Case) render(pkg string, files []FileSpec) map[string]string {
 	out := map[string]string{}
 	n := 0
-	for fi, f := range c.Files {
+	for fi, f := range files {
 		var sb strings.Builder
-		sb.WriteString("package p\n\n")
+		sb.WriteString("package " + pkg + "\n\n")
 		imps := map[string]bool{}
 		for _, call := range f.Calls {
 			if im := c.Types[call.Type].Import; im != "" && !imps[im] {
@@ -236,6 +268,10 @@ func (c *Case) Sources() map[string]string {
 		}
 		out[f.Name] = gofmt(sb.String())
 	}
+	return out
+}
+
+func (c *Case) reservedFile(out map[string]string) {
 	if len(c.Reserved) > 0 {
 		var sb strings.Builder
 		sb.WriteString("package p\n\n")
@@ -266,7 +302,6 @@ func (c *Case) Sources() map[string]string {
 		sb.WriteString("\treturn n\n}\n")
 		out[c.OtherFile] = gofmt(sb.String())
 	}
-	return out
 }
 
 // Esc writes a name as a wire atom (bytes outside [A-Za-z0-9_] as %XX; empty name = %).
